@@ -76,11 +76,44 @@ def unambiguous(t, u, seen=None):
     return True
 
 
+def default_py(d):
+    return {"none": None, "emptylist": [], "undefined": None}.get(d[0], d[1] if len(d) > 1 else None)
+
+
+def counts_properties(t, u, seen=None):
+    """a minProperties / maxProperties constraint on an object: completion with defaults / omission changes the count"""
+    seen = set() if seen is None else seen
+    k = t[0]
+    if k == "con":
+        b = t[2]
+        while b[0] == "con":
+            b = b[2]
+        if b[0] == "obj" and (t[1].get("min_props") is not None or t[1].get("max_props") is not None):
+            return True
+        return counts_properties(t[2], u, seen)
+    if k == "coll":
+        return counts_properties(t[2], u, seen)
+    if k in ("tuple", "union"):
+        return any(counts_properties(a, u, seen) for a in t[1])
+    if k == "map":
+        return counts_properties(t[2], u, seen)
+    if k == "obj":
+        if t[1] in seen:
+            return False
+        seen.add(t[1])
+        return any(counts_properties(("con", f["con"], f["ty"]) if f.get("con") else f["ty"], u, seen)
+                   for f in u["classes"][t[1]]["fields"])
+    return False
+
+
 def typed_universe(rng):
     u = G.gen_universe(rng, typed_defaults=True)
     for c in u["classes"]:
         for f in c["fields"]:
             f["fallback"] = False
+            # a default violating the field's own constraints is not a value of the field: drop the constraints then
+            if not f["required"] and f.get("con") and not S.satisfies(("con", f["con"], f["ty"]), default_py(f["default"]), u):
+                f["con"] = None
     return u
 
 
@@ -141,6 +174,9 @@ def run(tier):
         if not unambiguous(c.t, c.u):
             R.count("excluded:ambiguous_union")
             return
+        if counts_properties(c.t, c.u):
+            R.count("excluded:property_count_constraint")
+            return
         if c.opts["exclude_defaults"] and any(cl.get("depreq") for cl in c.u["classes"]):
             R.count("excluded:exclude_defaults_with_dependent_required")     # an asymmetric skip
             return
@@ -183,7 +219,7 @@ def run(tier):
     PD = Producer(R, *n2, depth=3, make_opts=opts_gen, make_universe=typed_universe, matrix=1)
 
     def dual(U, c):
-        if c.kind != "ok" or not in_domain(c.data) or not unambiguous(c.t, c.u):
+        if c.kind != "ok" or not in_domain(c.data) or not unambiguous(c.t, c.u) or counts_properties(c.t, c.u):
             return
         T = U.type(c.t)
         al = G.ALIASERS[c.opts["aliaser"]][0]
